@@ -5,7 +5,7 @@ import importlib
 def run(ctx):
     """Run the rules of ctx.prop: the property's own module, then the
     explicit-argument rule (rules/args.py) when its table has entries for
-    the property."""
+    the property, then the required-effects rule (rules/effects.py)."""
     mod = importlib.import_module('mstatic.rules.%s' % ctx.prop.lower())
     mod.run(ctx)
     from mstatic.rules import args
@@ -14,3 +14,9 @@ def run(ctx):
                      'layers are still passed at the call sites where the '
                      'default would break the property', 'ARGS')
         args.explicit_args(ctx, r, ctx.prop)
+    from mstatic.rules import effects
+    if any(ctx.prop in t[0] for t in effects.TABLE):
+        r = ctx.rule('RE', 'effects the property depends on are not '
+                     'conditioned on anything beyond their known enabling '
+                     'facts', 'GD-exact')
+        effects.required_effects(ctx, r, ctx.prop)
